@@ -29,7 +29,7 @@ func refreshWalk(r *Result, w interface{}, m *spec.Msg, sv reflect.Value, prev, 
 			continue
 		}
 		var unk []string
-		unknownPaths(nv, p, &unk)
+		unknownPathsSpec(a, nv, p, &unk)
 		if len(unk) > 0 {
 			r.violate("unknown-after-refresh", ch, fmt.Sprintf("unknown values at %v", unk), w)
 		}
